@@ -180,7 +180,7 @@ def run_machine(draws, state, tier):
     res.count("ops", len(seq))
     res.count("fired:F10_restart_oracle_lookups", res.stats.get("prints", 0))
     res.digest = hashlib.sha256(
-        repr((seq, [v.to_json() for v in V])).encode()).hexdigest()
+        repr((seq, [(v.oracle, v.key) for v in V])).encode()).hexdigest()
     res.samples = {"ops": [list(s) for s in seq],
                    "options": "index into OPTS = (indent, descriptions, "
                               "introspection, custom directives)"}
